@@ -1032,6 +1032,8 @@ fn gen_owned_word(r: &mut Rng) -> String {
     format!("{}/{}/{}/{}", enc::s(&w), enc::s(&ws), enc::s(pen), width)
 }
 
+static TINY_OK: std::sync::atomic::AtomicBool = std::sync::atomic::AtomicBool::new(false);
+
 fn gen_num(r: &mut Rng, frac: bool, neg: bool) -> String {
     let v = match r.below(10) {
         0 => 0,
@@ -1041,8 +1043,9 @@ fn gen_num(r: &mut Rng, frac: bool, neg: bool) -> String {
         _ => r.below(4) as i64,
     };
     let v = if neg && r.chance(1, 6) { -v } else { v };
-    if frac && r.chance(1, 12) {
-        // a tiny dyadic excess or deficit (exact in f64): v +- k/2^40
+    if frac && TINY_OK.load(std::sync::atomic::Ordering::Relaxed) && r.chance(1, 12) {
+        // a tiny dyadic excess or deficit (exact in f64 as long as numbers are only added and
+        // compared, i.e. for first-fit; optimal-fit squares gaps): v +- k/2^40
         let q: i64 = 1 << 40;
         let k = r.range(1, 3) as i64 * if r.chance(1, 2) { 1 } else { -1 };
         let num = v.abs().min(1000) * q + k;
@@ -1448,7 +1451,10 @@ pub fn generate<W: Write>(mode: &str, r: &mut Rng, out: &mut W) {
         "ff" => {
             let frac = r.chance(1, 3);
             let neg = r.chance(1, 6);
-            vec!["ff".into(), gen_frags(r, 40, frac, neg), gen_lws(r, frac, 5)]
+            TINY_OK.store(true, std::sync::atomic::Ordering::Relaxed);
+            let v = vec!["ff".into(), gen_frags(r, 40, frac, neg), gen_lws(r, frac, 5)];
+            TINY_OK.store(false, std::sync::atomic::Ordering::Relaxed);
+            v
         }
         "of" => {
             let frac = r.chance(1, 5);
